@@ -49,7 +49,7 @@ struct FieldCfg
 	std::string docKind;            // int | str | ints | strs | imap | obj | absent | null
 	int docInt = 0;
 	std::string docStr;
-	std::vector<int> docInts;
+	std::vector<int> docInts;          // also the code points of a wide string (kind "wstr")
 	std::vector<std::string> docStrs;
 	std::map<std::string, int> docMap;
 	VCfg v[kSlots];                 // kind "" = empty slot
@@ -96,7 +96,7 @@ struct AnyValidator
 			if (k == "minsize") return MinSize(static_cast<size_t>(cfg->a), msg)(value, isLoaded);
 			if (k == "maxsize") return MaxSize(static_cast<size_t>(cfg->a), msg)(value, isLoaded);
 		}
-		if constexpr (std::is_same_v<T, std::string>)
+		if constexpr (std::is_same_v<T, std::string> || std::is_same_v<T, std::u16string>)
 		{
 			if (k == "email") return msg ? Email(msg)(value, isLoaded) : Email()(value, isLoaded);
 			if (k == "phone") return PhoneNumber(static_cast<size_t>(cfg->a), static_cast<size_t>(cfg->b), true, msg)(value, isLoaded);
@@ -140,8 +140,9 @@ struct VObj
 	std::vector<std::string> vs[kMaxFields];
 	std::map<std::string, int> mi[kMaxFields];
 	Sub so[kMaxFields];
+	std::u16string wv[kMaxFields];
 
-	VObj() { for (size_t k = 0; k < kMaxFields; ++k) { iv[k] = 77; sv[k] = "prior"; ov[k] = std::nullopt; } }
+	VObj() { for (size_t k = 0; k < kMaxFields; ++k) { iv[k] = 77; sv[k] = "prior"; ov[k] = std::nullopt; wv[k] = u"prior"; } }
 
 	template <class TArchive>
 	void Serialize(TArchive& archive)
@@ -150,7 +151,22 @@ struct VObj
 		for (size_t k = 0; k < fs.size(); ++k)
 		{
 			const FieldCfg& f = fs[k];
-			if (f.type == "int")
+			if (g_scn->place == "attr")
+			{
+				// XML: the fields are attributes of the object's element
+				if constexpr (can_serialize_attribute_v<TArchive>)
+				{
+					if (f.type == "int")
+						archive << AttributeValue(std::string(f.key), iv[k], AnyValidator<int>{ &f.v[0] }, AnyValidator<int>{ &f.v[1] }, AnyValidator<int>{ &f.v[2] });
+					else if (f.type == "str")
+						archive << AttributeValue(std::string(f.key), sv[k], AnyValidator<std::string>{ &f.v[0] }, AnyValidator<std::string>{ &f.v[1] }, AnyValidator<std::string>{ &f.v[2] });
+					else Die("attribute fields are int or str");
+				}
+				else Die("this archive has no attributes");
+			}
+			else if (f.type == "wstr")
+				archive << KeyValue(std::string(f.key), wv[k], AnyValidator<std::u16string>{ &f.v[0] }, AnyValidator<std::u16string>{ &f.v[1] }, AnyValidator<std::u16string>{ &f.v[2] });
+			else if (f.type == "int")
 				archive << KeyValue(std::string(f.key), iv[k], AnyValidator<int>{ &f.v[0] }, AnyValidator<int>{ &f.v[1] }, AnyValidator<int>{ &f.v[2] });
 			else if (f.type == "str")
 				archive << KeyValue(std::string(f.key), sv[k], AnyValidator<std::string>{ &f.v[0] }, AnyValidator<std::string>{ &f.v[1] }, AnyValidator<std::string>{ &f.v[2] });
@@ -177,6 +193,7 @@ struct VObj
 			if (!out.empty()) out += ',';
 			if (fs[k].type == "int") out += "[\"int\"," + std::to_string(iv[k]) + "]";
 			else if (fs[k].type == "str") out += "[\"str\",\"" + vh::JsonEscape(sv[k]) + "\"]";
+			else if (fs[k].type == "wstr") { out += "[\"wstr\",["; for (size_t i = 0; i < wv[k].size(); ++i) { if (i) out += ','; out += std::to_string(static_cast<unsigned>(wv[k][i])); } out += "]]"; }
 			else if (fs[k].type == "optint") out += ov[k] ? "[\"some\"," + std::to_string(*ov[k]) + "]" : std::string("[\"none\"]");
 			else if (fs[k].type == "vecint") { out += "[\"ints\",["; for (size_t i = 0; i < vi[k].size(); ++i) { if (i) out += ','; out += std::to_string(vi[k][i]); } out += "]]"; }
 			else if (fs[k].type == "vecstr") { out += "[\"strs\",["; for (size_t i = 0; i < vs[k].size(); ++i) { if (i) out += ','; out += "\"" + vh::JsonEscape(vs[k][i]) + "\""; } out += "]]"; }
@@ -193,8 +210,19 @@ struct WObj
 	{
 		for (const FieldCfg& f : g_scn->fields)
 		{
-			if (f.docKind == "int") { int x = f.docInt; archive << KeyValue(std::string(f.key), x); }
+			if (g_scn->place == "attr")
+			{
+				if constexpr (can_serialize_attribute_v<TArchive>)
+				{
+					if (f.docKind == "int") { int x = f.docInt; archive << AttributeValue(std::string(f.key), x); }
+					else if (f.docKind == "str") { std::string s = f.docStr; archive << AttributeValue(std::string(f.key), s); }
+					else if (f.docKind != "absent") Die("attribute values are int, str or absent");
+				}
+				else Die("this archive has no attributes");
+			}
+			else if (f.docKind == "int") { int x = f.docInt; archive << KeyValue(std::string(f.key), x); }
 			else if (f.docKind == "str") { std::string s = f.docStr; archive << KeyValue(std::string(f.key), s); }
+			else if (f.docKind == "wstr") { std::u16string w; for (int c : f.docInts) w.push_back(static_cast<char16_t>(c)); archive << KeyValue(std::string(f.key), w); }
 			else if (f.docKind == "null") { std::nullptr_t n = nullptr; archive << KeyValue(std::string(f.key), n); }
 			else if (f.docKind == "absent") continue;
 			else if constexpr (IsCsvScope<TArchive>::value) Die("CSV cannot hold a value of kind " + f.docKind);
@@ -250,7 +278,7 @@ std::string RunScenario(const Scenario& s, const std::string& medium, bool withD
 		if (s.place == "rootarr") { std::vector<WObj> w(s.nel); SaveObject<TArchive>(w, data, options); }
 		else if constexpr (!isCsv)
 		{
-			if (s.place == "flat") { WObj w; SaveObject<TArchive>(w, data, options); }
+			if (s.place == "flat" || s.place == "attr") { WObj w; SaveObject<TArchive>(w, data, options); }
 			else if (s.place == "nested") { RootNested<WObj> w; SaveObject<TArchive>(w, data, options); }
 			else if (s.place == "arr") { RootArr<WObj> w; w.arr.resize(s.nel); SaveObject<TArchive>(w, data, options); }
 			else if (s.place == "map") { RootMap<WObj> w; for (size_t e = 1; e <= s.nel; ++e) w.m.emplace("k" + std::to_string(e), WObj{}); SaveObject<TArchive>(w, data, options); }
@@ -278,7 +306,7 @@ std::string RunScenario(const Scenario& s, const std::string& medium, bool withD
 	if (s.place == "rootarr") { std::vector<VObj> t; load(t); for (const auto& o : t) o.AppendValues(vals); }
 	else if constexpr (!isCsv)
 	{
-		if (s.place == "flat") { VObj t; load(t); t.AppendValues(vals); }
+		if (s.place == "flat" || s.place == "attr") { VObj t; load(t); t.AppendValues(vals); }
 		else if (s.place == "nested") { RootNested<VObj> t; load(t); t.n.AppendValues(vals); }
 		else if (s.place == "arr") { RootArr<VObj> t; load(t); for (const auto& o : t.arr) o.AppendValues(vals); }
 		else if (s.place == "map") { RootMap<VObj> t; load(t); for (const auto& kv : t.m) kv.second.AppendValues(vals); }
@@ -311,7 +339,7 @@ Scenario ParseScenario(const std::string& line)
 		f.docKind = doc[0].GetString();
 		if (f.docKind == "int" || f.docKind == "obj") f.docInt = doc[1].GetInt();
 		else if (f.docKind == "str") f.docStr = doc[1].GetString();
-		else if (f.docKind == "ints") { for (const auto& x : doc[1].GetArray()) f.docInts.push_back(x.GetInt()); }
+		else if (f.docKind == "ints" || f.docKind == "wstr") { for (const auto& x : doc[1].GetArray()) f.docInts.push_back(x.GetInt()); }
 		else if (f.docKind == "strs") { for (const auto& x : doc[1].GetArray()) f.docStrs.emplace_back(x.GetString()); }
 		else if (f.docKind == "imap") { for (const auto& x : doc[1].GetArray()) f.docMap.emplace(x[0].GetString(), x[1].GetInt()); }
 		const auto& vs = jf["vs"].GetArray();
